@@ -78,6 +78,9 @@ def _proj_from(r, arg, caps, facts):
         if caps is not None and isinstance(m, tuple) and len(m) == 3 and m[0] == "field" and peel(m[1]) == ("param", 1) and str(m[2]).isdigit() and int(m[2]) < len(caps):
             m = peel(caps[int(m[2])], transparent=ID_CALLS)
         return (("lookup", m),)
+    # a field of the element: arg.name
+    if isinstance(r, tuple) and len(r) == 3 and r[0] == "field" and isinstance(r[2], str) and peel(r[1], transparent=ID_CALLS) in (arg, ("deref", arg)):
+        return (("field", r[2]),)
     # a getter applied to the element: f(arg)
     if isinstance(r, tuple) and r and r[0] == "call" and len(r[2]) == 1 and peel(r[2][0], transparent=ID_CALLS) == arg:
         return (("get", strip_generics(r[1]).split("::")[-1]),)
